@@ -6,6 +6,7 @@
 package imapwire
 
 import (
+	"unicode/utf8"
 	"github.com/emersion/go-imap/v2/internal/utf7"
 	"bufio"
 	"io"
@@ -340,8 +341,9 @@ var (
 
 //@ func (enc *Encoder) Number64(v int64) (result *Encoder)
 //@   props C01:callsite,post,pre@call
-//@   callsite Encoder.writeString(e *Encoder, str string) requires v >= 0 ==> str == strconv.FormatUint(uint64(v), 10)
-//@   ensures __called("Encoder.writeString")
+//@   callsite Encoder.writeString(e *Encoder, str string) requires v >= 0 && str == strconv.FormatUint(uint64(v), 10)
+//@   ensures v >= 0 ==> __called("Encoder.writeString")
+//@   ensures v < 0 ==> enc.err != nil && !__called("Encoder.writeString")
 
 // numberStr: the digits read so far are exactly what was accumulated; success
 // means a non-empty run of digits.
@@ -417,8 +419,9 @@ func GhostListRoom(dec *Decoder) int { return maxListDepth - dec.listDepth }
 //@ func (enc *Encoder) Mailbox(name string) (result *Encoder)
 //@   props C01:callsite,post C02:callsite,post
 //@   callsite Encoder.Atom(e *Encoder, s string) requires strings.EqualFold(name, "INBOX") && s == "INBOX"
-//@   callsite Encoder.String(e *Encoder, s string) requires !strings.EqualFold(name, "INBOX") && s == utf7Name(name)
-//@   ensures __called("Encoder.Atom") || __called("Encoder.String")
+//@   callsite Encoder.String(e *Encoder, s string) requires !strings.EqualFold(name, "INBOX") && utf8.ValidString(name) && s == utf7Name(name)
+//@   ensures __called("Encoder.Atom") || __called("Encoder.String") || enc.err != nil
+//@   ensures !strings.EqualFold(name, "INBOX") && !utf8.ValidString(name) ==> enc.err != nil && !__called("Encoder.String")
 
 //@ pure
 func utf7Name(name string) string {
